@@ -77,6 +77,10 @@ func c08Features() []c08Feature {
 		{"float-global", "RATIO = 0.1\n", "RATIO", []c08Mut{{"float literal", "RATIO = 0.1", "RATIO = 0.30000000000000004"}}},
 		{"bigint-global", "HUGE = 18446744073709551616\n", "HUGE", []c08Mut{{"big integer literal", "18446744073709551616", "18446744073709551617"}}},
 		{"negative-int", "NEG = -2147483648\n", "NEG", []c08Mut{{"int32 boundary literal", "-2147483648", "-2147483649"}}},
+		{"tuple-prefix-slice", "VERSION = (1, 4, 2)\nSERIES = VERSION[:2]\n", "[VERSION, SERIES]",
+			[]c08Mut{{"slice bound of a tuple sharing storage with another referenced tuple", "VERSION[:2]", "VERSION[:1]"}}},
+		{"tuple-slice-then-full", "FULLT = (7, 8, 9)\nHEAD = FULLT[:1]\n", "[HEAD, FULLT]",
+			[]c08Mut{{"element beyond a prefix slice referenced first", "(7, 8, 9)", "(7, 8, 10)"}}},
 		{"tuple-sizes", "TUP = ((), (1,), (1, 2), (1, 2, 3), (1, 2, 3, 4))\n", "TUP", []c08Mut{{"tuple element", "(1, 2, 3, 4))", "(1, 2, 3, 5))"}}},
 	}
 }
